@@ -583,7 +583,7 @@ func (r *Reconciler) commitRollback(ctx context.Context, transaction *configapi.
 
 			configuration.Committed.Target = transaction.Status.Rollback.Index
 			if err := r.updateConfigurationStatus(ctx, configuration); err != nil {
-				return controller.Result{}, false, nil
+				return controller.Result{}, false, err
 			}
 		}
 
@@ -1049,11 +1049,13 @@ func (r *Reconciler) updateTransactionStatus(ctx context.Context, transaction *c
 	log.Debug(transaction.Status)
 	err := r.transactions.UpdateStatus(ctx, transaction)
 	if err != nil {
-		if !errors.IsNotFound(err) && !errors.IsConflict(err) {
-			log.Errorf("Failed updating Transaction %s status", transaction.ID, err)
+		if !errors.IsNotFound(err) {
+			// A write conflict means the records this reconciliation read are stale: nothing it decided
+			// may be written any more. Return the error so the transaction is reconciled again.
+			log.Warnf("Failed updating Transaction %s status", transaction.ID, err)
 			return err
 		}
-		log.Warnf("Write conflict updating Transaction %s status", transaction.ID, err)
+		log.Warnf("Transaction %s not found", transaction.ID, err)
 		return nil
 	}
 	return nil
@@ -1063,11 +1065,13 @@ func (r *Reconciler) updateConfigurationStatus(ctx context.Context, configuratio
 	log.Debug(configuration.Status)
 	err := r.configurations.UpdateStatus(ctx, configuration)
 	if err != nil {
-		if !errors.IsNotFound(err) && !errors.IsConflict(err) {
-			log.Errorf("Failed updating Configuration '%s' status", configuration.ID, err)
+		if !errors.IsNotFound(err) {
+			// A write conflict means the records this reconciliation read are stale: nothing it decided
+			// may be written any more. Return the error so the transaction is reconciled again.
+			log.Warnf("Failed updating Configuration '%s' status", configuration.ID, err)
 			return err
 		}
-		log.Warnf("Write conflict updating Configuration '%s' status", configuration.ID, err)
+		log.Warnf("Configuration '%s' not found", configuration.ID, err)
 		return nil
 	}
 	return nil
